@@ -44,9 +44,11 @@ def floors(ctx):
     return f
 
 
-QUERY_KEYS = [("FORWARD", "NEIGHBOR", "none"), ("ANY", "NEIGHBOR", "none"), ("BACKWARD", "NONNEIGHBOR", "tagged_edge"),
-              ("FORWARD", "NEIGHBOR", "even_vertex"), ("ANY", "ERROR", "not_directed"), ("FORWARD", "ERROR", "none"),
-              ("BACKWARD", "NEIGHBOR", "accept"), ("FORWARD", "NONNEIGHBOR", "low_vertex")]
+QUERY_KEYS = [("FORWARD", "NEIGHBOR", "none"), ("FORWARD", "NEIGHBOR", "even_vertex"), ("FORWARD", "NEIGHBOR", "tagged_edge"),
+              ("ANY", "NEIGHBOR", "accept"), ("ANY", "NEIGHBOR", "not_directed"), ("BACKWARD", "NONNEIGHBOR", "tagged_edge"),
+              ("BACKWARD", "NEIGHBOR", "tagged_edge"), ("FORWARD", "NONNEIGHBOR", "none"),
+              ("ANY", "NEIGHBOR", "none"), ("ANY", "ERROR", "not_directed"), ("FORWARD", "ERROR", "none"),
+              ("BACKWARD", "NEIGHBOR", "accept"), ("FORWARD", "NONNEIGHBOR", "low_vertex"), ("BACKWARD", "NONNEIGHBOR", "reject")]
 
 
 class Gen5(gen.Gen):
@@ -83,7 +85,7 @@ class Gen5(gen.Gen):
         v = self._pick(self.vertices(pool))
         if v is None:
             return None
-        d, u, f = self.rng.choice(QUERY_KEYS[:4]) if self.rng.random() < 0.7 else self.rng.choice(QUERY_KEYS)
+        d, u, f = self.rng.choice(QUERY_KEYS[:8]) if self.rng.random() < 0.8 else self.rng.choice(QUERY_KEYS)
         op = ["nb", v, d, u, f]
         if op not in self.queried:
             self.queried.append(op)
@@ -103,7 +105,7 @@ class Gen5(gen.Gen):
         us = [n for n in self.universes(pool) if any(x is pool.get(s) for x in pool.get(n).vertices)]
         if us and self.rng.random() < 0.4:
             u = self.rng.choice(us)
-        d, unk, f = self.rng.choice(QUERY_KEYS[:4])
+        d, unk, f = self.rng.choice(QUERY_KEYS[:8])
         fn = self.rng.choice(list(driver.TRAVERSALS))
         return ["trav", fn, u, s, d, unk, f, self.rng.choice(["none", "even"])]
 
@@ -325,9 +327,9 @@ def judge(ctx, ops, stats):
     k = first_divergence(a, b)
     if k is None:
         return
-    has_hop = any(op[0] == "hop" for op in ops)
     tag = classify(ops, k, a, b)
     small = ops[: k + 1]
+    has_hop = any(op[0] == "hop" for op in small)
     if ctx.should_shrink(tag, 1):
         def fails(sub):
             x, y = run_off(sub), run_schedule(sub)
@@ -356,7 +358,7 @@ def prelude():
     base = [["cache", True], ["mkv", "V0", "Vertex", [], []], ["mkv", "V1", "VSub", [], []], ["mkv", "V2", "Vertex", [], []],
             ["mkv", "V3", "Vertex", [], []], ["mke", "E0", "DirectedEdge", "V0", "V1"], ["mke", "E1", "UnDirectedEdge", "V1", "V2"],
             ["mke", "E2", "OtherLink", "V2", "V0"]]
-    qs = [["nb", v, d, u, f] for v in ("V0", "V1", "V2", "V3") for (d, u, f) in QUERY_KEYS[:4]]
+    qs = [["nb", v, d, u, f] for v in ("V0", "V1", "V2", "V3") for (d, u, f) in QUERY_KEYS[:8]]
     qs += [["trav", "bft", None, "V0", "ANY", "NEIGHBOR", "none", "none"], ["fl", "V0", "V1", False, "NEIGHBOR", "none"],
            ["search", "dfs_recursive", None, "V0", "idx", 3]]
     muts = []
@@ -394,7 +396,8 @@ def run(ctx):
             ctx.nontrivial(ops)
     # one scripted fresh-interpreter continuation per shard, so the floor never depends on the seed
     hop_script = next(iter(prelude()))
-    hop_ops = hop_script[:-19] + [["hop"]] + hop_script[-19:]
+    nq = 4 * 8 + 3
+    hop_ops = hop_script[:-nq] + [["hop"]] + hop_script[-nq:]
     judge(ctx, hop_ops, stats)
     nhist = 260 if quick else 900
     nhops = 6 if quick else 12
